@@ -177,6 +177,18 @@ Theorem C01_graph_validator_sound :
 Proof. exact graph_validator_sound. Qed.
 Print Assumptions C01_graph_validator_sound.
 
+(** the checker against the specification itself: an accepted graph computes the specification
+    (this is the form the check runs on every real graph; it does not go through desugaring) *)
+Theorem C01_graph_spec_validator_sound :
+  forall (O : ringops), ring_ok O ->
+  forall (E : env O) (sizes : string -> Z) (ords : string -> list nat) (Reqb : O -> O -> bool),
+    (forall x y, Reqb x y = true -> x = y) ->
+  forall (a : assignment O) (g : graph O),
+    graph_ok_spec ords Reqb a g = true ->
+    forall c, gdenote E sizes ords g (bind (tgt_idx a) c) = spec a E sizes c.
+Proof. exact graph_spec_validator_sound. Qed.
+Print Assumptions C01_graph_spec_validator_sound.
+
 (** ... hence the specification: always for the repaired desugaring, under the guard for today's *)
 Theorem C01_graph_pipeline_correct :
   forall (O : ringops), ring_ok O ->
